@@ -10,13 +10,25 @@
    eAllStructuralFeatures is exactly own plus inherited declarations, each
    once; eAllReferences/eAllAttributes partition it; findEStructuralFeature
    returns a declaration of that name among them, or None when there is none.
-   PARTIAL: "exactly once" for eAllContents needs the single-owner invariant
-   of C02 (not yet a theorem); the interchangeability of access paths is
+   "Exactly once" (Proofs/C19Once.v): under the single-owner invariant own_ok
+   (cont s c = Some (p,f) <-> f is a containment and slot (p,f) holds c), the
+   slot shape shape2 (a containment slot holds an object at most once) -- both
+   are components of WF, preserved by the operations (C02, Proofs/WF*.v) -- and
+   acyclicity of the container pointers (acyclic_cont: no object is its own
+   transitive container; implied by "every container chain is finite",
+   forall c, exists n, depth s c n), eContents and eAllContents are
+   duplicate-free for EVERY fuel; if moreover every contained object belongs
+   to the universe (c < length (ocls m)) and fuel >= the number of objects
+   (the model uses that number + 1), eAllContents enumerates exactly the
+   strict descendants, each once.  Acyclicity and the universe bound are
+   premises here, not derived from the operation histories.
+   PARTIAL: the interchangeability of access paths is
    decided by the correspondence (access path randomised per call); that the
    implementation's views follow EDITS of the class graph (no stale cache) is
    decided by the edit-history correspondence of harness/props/c19.py. *)
 From Coq Require Import ZArith List Bool Arith.
-From PyecoreV Require Import Lib.PyBase Lib.PyList Model.Kernel Model.MetaViews Proofs.C19Proofs.
+From PyecoreV Require Import Lib.PyBase Lib.PyList Model.Kernel Model.MetaViews Proofs.C19Proofs
+     Proofs.WFBase Proofs.C19Once.
 Import ListNotations.
 
 Theorem C19_econtents_are_the_containment_slots :
@@ -52,6 +64,48 @@ Theorem C19_eallcontents_every_descendant_partial :
   forall m s n o c fuel, descends_in m s n o c -> n <= fuel -> In c (eallcontents fuel m s o).
 Proof. exact eallcontents_complete. Qed.
 Print Assumptions C19_eallcontents_every_descendant_partial.
+
+Theorem C19_econtents_exactly_once :
+  forall m s o, own_ok m s -> shape2 m s -> NoDup (econtents m s o).
+Proof. exact econtents_NoDup. Qed.
+Print Assumptions C19_econtents_exactly_once.
+
+(* every fuel: truncation only drops elements *)
+Theorem C19_eallcontents_exactly_once :
+  forall m s fuel o,
+    own_ok m s -> shape2 m s -> acyclic_cont s -> NoDup (eallcontents fuel m s o).
+Proof. exact eallcontents_NoDup. Qed.
+Print Assumptions C19_eallcontents_exactly_once.
+
+Theorem C19_eallcontents_exactly_once_finite_chains :
+  forall m s fuel o,
+    own_ok m s -> shape2 m s -> (forall c, exists n, depth s c n) ->
+    NoDup (eallcontents fuel m s o).
+Proof. exact eallcontents_NoDup_finite_chains. Qed.
+Print Assumptions C19_eallcontents_exactly_once_finite_chains.
+
+Theorem C19_finite_chains_are_acyclic :
+  forall s, (forall c, exists n, depth s c n) -> acyclic_cont s.
+Proof. exact finite_chains_acyclic. Qed.
+Print Assumptions C19_finite_chains_are_acyclic.
+
+Theorem C19_no_self_descendant_is_acyclic :
+  forall m s,
+    own_ok m s -> (forall c p f, cont s c = Some (p, f) -> In f (ref_feats m p)) ->
+    (forall x, ~ descends m s x x) -> acyclic_cont s.
+Proof. exact no_self_descendant_acyclic. Qed.
+Print Assumptions C19_no_self_descendant_is_acyclic.
+
+(* with the model's fuel: a duplicate-free enumeration of exactly the strict descendants *)
+Theorem C19_eallcontents_is_the_descendants_each_once :
+  forall m s fuel o,
+    own_ok m s -> shape2 m s -> acyclic_cont s ->
+    (forall c p f, cont s c = Some (p, f) -> c < length (ocls m)) ->
+    length (ocls m) <= fuel ->
+    NoDup (eallcontents fuel m s o) /\
+    (forall c, In c (eallcontents fuel m s o) <-> descends m s o c).
+Proof. exact eallcontents_exact. Qed.
+Print Assumptions C19_eallcontents_is_the_descendants_each_once.
 
 Theorem C19_all_supertypes_are_the_ancestors :
   forall g fuel c d, In d (all_supers fuel g c) -> exists n, ancestor g n c d.
@@ -113,3 +167,11 @@ Example C19_witness :
   econtents ex_mm s 0 = [1] /\ eallcontents 4 ex_mm s 0 = [1; 2] /\ eroot ex_mm s 2 = 0 /\
   eresource_of ex_mm s 2 = Some 0.
 Proof. vm_compute. repeat split; reflexivity. Qed.
+
+(* the premises of the exactly-once theorems are satisfiable by a state with nested containment *)
+Example C19_exactly_once_witness :
+  own_ok once_mm once_state /\ shape2 once_mm once_state /\ acyclic_cont once_state /\
+  (forall c p f, cont once_state c = Some (p, f) -> c < length (ocls once_mm)) /\
+  eallcontents (S (length (ocls once_mm))) once_mm once_state 0 = [1; 2].
+Proof. exact once_witness. Qed.
+Print Assumptions C19_exactly_once_witness.
